@@ -45,11 +45,19 @@ pub fn run(out: &mut Out, seed: u64, tier: &str) {
                     // a different coordinate set each time (so stale connectivity would show)
                     let g = if rng.chance(0.3) { let mut c = m.clone(); for p in c.xs.iter_mut() { for q in 0..3 { p[q] *= 3.0; } } c } else { distort(&m, rng.range(0.0, 0.4), &mut rng) };
                     let mut flat: Vec<f64> = g.xs.iter().flat_map(|p| p.to_vec()).collect();
-                    if rng.chance(0.15) { if rng.chance(0.5) { flat.pop(); } else { flat.push(1.0); } }
+                    // wrong lengths: one or two numbers short or long, a whole atom short or long, empty
+                    if rng.chance(0.2) { match rng.below(7) { 0 => { flat.pop(); } 1 => { flat.pop(); flat.pop(); } 2 => { flat.push(1.0); } 3 => { flat.push(1.0); flat.push(-2.0); }
+                                                              4 => { flat.extend([0.5, 0.5, 0.5]); } 5 => { flat.truncate(flat.len().saturating_sub(3)); } _ => { flat.clear(); } } }
                     ops.push(format!("C {}", hexs(&flat)));
                     let before = state(&w);
                     match panic_kind(|| w.set_coordinates(flat.clone())) {
-                        None => outs.push(state(&w)),
+                        None => {
+                            outs.push(state(&w));
+                            if flat.len() != 3 * m.n() {
+                                out.oracle_fail(&format!("a coordinate list of {} numbers was accepted for a molecule of {} atoms", flat.len(), m.n()),
+                                                &format!("{}\ncalls: {}", m.xyz_text(), ops.join(" ; ")));
+                            }
+                        }
                         Some(kind) => {
                             n_err += 1;
                             outs.push(format!("err {} {}", kind, state(&w)));
